@@ -74,6 +74,8 @@ func (r *EngineRunner) execConc(f []string) string {
 		return r.concStress(atoi(f[2]), atoi(f[3]), atoi(f[4]), uint64(atou(f[5])), f[6] == "1", static)
 	case "concmix":
 		return r.concMix(atoi(f[2]), atoi(f[3]), uint64(atou(f[4])))
+	case "concbg":
+		return r.concBackground(f[2:8], atoi(f[8]))
 	}
 	return "err unknown-op"
 }
@@ -686,4 +688,58 @@ func (r *EngineRunner) concMix(clients, opsPer int, seed uint64) string {
 		r.ref.maps[r.ref.curDir] = r.ref.m
 	}
 	return fmt.Sprintf("done # calls=%d", atomic.LoadInt64(&calls))
+}
+
+
+// concBackground (C09): the directory (closed) is opened with EnableBackgroundMerge, a few clients write and
+// read for the given number of milliseconds (the background goroutine looks at the database once per second),
+// then the database is closed.  Findings come from the race detector, recovered panics and returned errors.
+func (r *EngineRunner) concBackground(cfg []string, ms int) string {
+	if r.db != nil {
+		return "err open"
+	}
+	savedEv, savedFs, savedMf := fio.VerifEvent, kv.VerifFsEvent, kv.VerifMergeFile
+	fio.VerifEvent, kv.VerifFsEvent, kv.VerifMergeFile = nil, nil, nil
+	defer func() { fio.VerifEvent, kv.VerifFsEvent, kv.VerifMergeFile = savedEv, savedFs, savedMf }()
+	o := parseOpts(cfg, r.dir())
+	o.EnableBackgroundMerge = true
+	db, err := kv.Open(o)
+	if err != nil {
+		return "err " + EngErr(err)
+	}
+	stop := time.Now().Add(time.Duration(ms) * time.Millisecond)
+	var wg sync.WaitGroup
+	calls := int64(0)
+	for c := 0; c < 4; c++ {
+		wg.Add(1)
+		go func(c int) {
+			defer wg.Done()
+			defer func() {
+				if e := recover(); e != nil {
+					r.failSync("C09", "panic with the background merge enabled: %v", e)
+				}
+			}()
+			for i := 0; time.Now().Before(stop); i++ {
+				k := []byte(fmt.Sprintf("bg%d-%03d", c, i%50))
+				if err := db.Put(k, []byte(fmt.Sprintf("v%d", i))); err != nil {
+					r.failSync("C09", "Put failed with the background merge enabled: %v", err)
+					return
+				}
+				if _, err := db.Get(k); err != nil {
+					r.failSync("C09", "Get of a key just written failed with the background merge enabled: %v", err)
+					return
+				}
+				if i%7 == 3 {
+					_ = db.Delete(k)
+				}
+				atomic.AddInt64(&calls, 3)
+				time.Sleep(200 * time.Microsecond)
+			}
+		}(c)
+	}
+	wg.Wait()
+	if err := db.Close(); err != nil {
+		r.fail("C09", "Close failed with the background merge enabled: %v", err)
+	}
+	return fmt.Sprintf("done # calls=%d", calls)
 }
